@@ -40,6 +40,7 @@ pub fn prop() -> HistProp {
         thorough: 60000,
         mk: |_, _, _| Box::new(C13 { nontrivial: false }),
         extra: None,
+        many_batches: 0,
     }
 }
 
